@@ -866,6 +866,11 @@ example : (run (threeUnsew3 exCfg 16 2) (run (threeSew3 exCfg 16 1 4) exMap).2).
 /-- 2-sew (both darts have a successor) and 1-sew / unsews on the same map -/
 example : (run (twoSew3 exCfg 16 7 11) exMap).1 = .ok () ∧ exMap.β 1 7 ≠ 0 ∧ exMap.β 1 11 ≠ 0 := by decide +kernel
 example : (run (twoUnsew3 exCfg 16 7) (run (twoSew3 exCfg 16 7 11) exMap).2).1 = .ok () := by decide +kernel
+/-- the other three cases of `two_sew`: both darts 1-free, only `l`, only `r` -/
+example : (run (twoSew3 exCfg 16 13 14) exMap).1 = .ok () ∧ exMap.β 1 13 = 0 ∧ exMap.β 1 14 = 0 := by decide +kernel
+example : (run (twoSew3 exCfg 16 14 7) exMap).1 = .ok () ∧ (run (twoSew3 exCfg 16 7 14) exMap).1 = .ok () := by
+  decide +kernel
+example : (run (twoSew3 exCfg 16 14 7) exMap).2.att 0 8 = some (.pt 3 (5/2) 3) := by decide +kernel
 example : (run (oneSew3 exCfg 16 13 14) exMap).1 = .ok () := by decide +kernel
 /-- a 1-sew that merges: dart 13 of the chain 2-sewn to the square first (`β2 13 ≠ 0`) -/
 example : (run (oneSew3 exCfg 16 13 14) (run (iLinkCore 2 13 9) exMap).2).1 = .ok () ∧
